@@ -860,6 +860,7 @@ func main() {
 	c.Rule += " After the four reconciles: one reconcile whose last step adds a fatal result (conditions asserted in it must still be True), then uninstall + connection collection + re-install of fn-0 (it must be reached again)."
 	c.Rule += " " + "A runtime upgraded in place behind an unchanged endpoint (v1 <-> v1beta1 only) must keep being served; a Terminating composed resource stays in the observed state."
 	c.Rule += " " + "Programs may return no context at all, and may shrink their requirements to nothing."
+	c.Rule += " " + "A third of the cases with composed kinds behind the XR controller's cache (reconciler built through the real CompositeReconcilerOptions)."
 	c.Assumptions = []string{"programs are test inputs executed by both sides; the contract (threading, rounds, observed construction) is written from the property statement", "the first reconcile of an XR is not judged (in-memory XR differs from the stored one)"}
 	c.Floor = 100
 	n := c.N(600, 12000)
